@@ -101,3 +101,67 @@ def feasible(pi: PathInfo, folder: Folder, fn: Func, symenv: Dict[str, Any]) -> 
         if bool(v) != truth:
             return False
     return None if unknown else True
+
+
+def fold_path(folder: Folder, fn: Func, pi: PathInfo, symenv: Dict[str, Any]) -> Any:
+    """Value returned along one path, folding assignments and in-place list/set updates of locals.
+
+    Only string/list building is supported (renderer helpers); anything else gives UNKNOWN.
+    """
+    env: Dict[str, Any] = dict(symenv)
+    for node, lab in pi.nodes:
+        st = node.ast
+        if node.kind != "stmt" or st is None:
+            continue
+        if isinstance(st, ast.Expr) and isinstance(st.value, ast.Constant):
+            continue
+        if isinstance(st, (ast.Assign, ast.AnnAssign)) and st.value is not None:
+            tgt = st.targets[0] if isinstance(st, ast.Assign) else st.target
+            if isinstance(tgt, ast.Name):
+                env[tgt.id] = folder.fold(st.value, fn.module, env)
+            continue
+        if isinstance(st, ast.Expr) and isinstance(st.value, ast.Call) and isinstance(st.value.func, ast.Attribute):
+            c = st.value
+            recv = c.func.value
+            if isinstance(recv, ast.Name) and recv.id in env and known(env[recv.id]) and len(c.args) == 1 and not c.keywords:
+                arg = folder.fold(c.args[0], fn.module, env)
+                obj = env[recv.id]
+                if known(arg):
+                    if isinstance(obj, list) and c.func.attr in ("append", "extend"):
+                        obj = list(obj)
+                        getattr(obj, c.func.attr)(arg)
+                        env[recv.id] = obj
+                        continue
+                    if isinstance(obj, set) and c.func.attr in ("add", "update"):
+                        obj = set(obj)
+                        getattr(obj, c.func.attr)(arg)
+                        env[recv.id] = obj
+                        continue
+                env[recv.id] = UNKNOWN
+            continue
+        if isinstance(st, ast.Return):
+            if st.value is None:
+                return None
+            return folder.fold(st.value, fn.module, env)
+    return None
+
+
+def render_table(folder: Folder, cfg: CFG, fn: Func, symenvs: List[Dict[str, Any]]) -> List[Tuple[Dict[str, Any], Any]]:
+    """For each symbolic environment: the folded return value of the unique feasible normal path (UNKNOWN otherwise)."""
+    paths = [p for p in function_paths(cfg) if not p.raises]
+    out = []
+    for se in symenvs:
+        feas = []
+        for p in paths:
+            fz = feasible(p, folder, fn, se)
+            if fz is not False:
+                feas.append((p, fz))
+        if len(feas) == 1:
+            out.append((se, fold_path(folder, fn, feas[0][0], se)))
+        else:
+            vals = [fold_path(folder, fn, p, se) for p, _ in feas]
+            if vals and all(known(v) and v == vals[0] for v in vals):
+                out.append((se, vals[0]))
+            else:
+                out.append((se, UNKNOWN))
+    return out
